@@ -232,7 +232,7 @@ public:
     // it can be a universal reference.
     template<typename Op>
     explicit OperatorNode(Op &&op, Node<Ts> &&...arguments)
-        : m_parent{ nullptr }, m_dirty{ true /*dirty until reevaluated*/ }, m_op{ std::move(op) }, m_values{ std::move(arguments)... }, m_result(reevaluate())
+        : m_parent{ nullptr }, m_dirty{ true /*dirty until reevaluated*/ }, m_op{ std::forward<Op>(op) }, m_values{ std::move(arguments)... }, m_result(reevaluate())
     {
         static_assert(
                 std::is_convertible_v<decltype(m_op(std::declval<Ts>()...)), ResultType>,
